@@ -462,7 +462,8 @@ func (r *Resolver) onStructLike(g *Scope, name string, t *parser.Type, v *parser
 				// a trick to create pointers without temporary variables
 				val = fmt.Sprintf("(&struct{x %s}{%s}).x", typ, val)
 			}
-			if !strings.HasPrefix(val, "&") {
+			isStructConst := f.Type.Category.IsStructLike() && mcv.Value.Type == parser.ConstType_ConstIdentifier
+			if !strings.HasPrefix(val, "&") && !isStructConst { // a constant of struct type is a pointer already
 				val = "&" + val
 			}
 		}
